@@ -108,7 +108,8 @@ type Engine struct {
 	Plain   string
 	Race    string
 	Rewrite *rewrite.Stats
-	Sites   []string // R1/R2 site ids
+	Sites   []string          // R1/R2 site ids
+	Labels  map[string]string // site id -> stable label
 	jobSeq  int
 	mu      sync.Mutex
 }
@@ -129,10 +130,11 @@ func NewEngine(id string, withRace bool) (*Engine, error) {
 	if err := simbuild.PrepareHarness(s, "gensim"); err != nil {
 		return nil, err
 	}
-	e := &Engine{S: s, Rewrite: st}
+	e := &Engine{S: s, Rewrite: st, Labels: map[string]string{}}
 	for _, x := range st.Sites {
 		if x.Rule == "R1" || x.Rule == "R2" {
 			e.Sites = append(e.Sites, x.ID)
+			e.Labels[x.ID] = x.Label
 		}
 	}
 	var wg sync.WaitGroup
@@ -486,7 +488,7 @@ func judge(sc Scenario, ref, res Result) (oracle, what string, diff []string) {
 
 // minimise shrinks a failing scenario while the same oracle fails: schedule off, history dropped,
 // faults dropped, then the set of sites with a non-canonical order bisected to a minimal culprit set.
-func (e *Engine) minimise(sc Scenario, ref Result, oracle string) (Scenario, []string, int) {
+func (e *Engine) minimise(sc Scenario, ref Result, oracle string, hints [][]string) (Scenario, []string, int) {
 	runs := 0
 	fails := func(x Scenario) bool {
 		runs++
@@ -559,6 +561,22 @@ func (e *Engine) minimise(sc Scenario, ref Result, oracle string) (Scenario, []s
 		// native order is not replayable site by site; report as is
 		return cur, active, runs
 	}
+	// culprit sets already found in this run: one run each instead of a full bisection
+	for _, h := range hints {
+		ok := true
+		for _, s := range h {
+			found := false
+			for _, a := range active {
+				if a == s {
+					found = true
+				}
+			}
+			ok = ok && found
+		}
+		if ok && len(h) > 0 && fails(with(h)) {
+			return with(h), h, runs
+		}
+	}
 	// ddmin
 	n := 2
 	for len(active) >= 2 {
@@ -601,21 +619,18 @@ func cloneMap(m map[string]int) map[string]int {
 	return o
 }
 
-func siteFiles(sites []string) string {
-	seen := map[string]bool{}
+// siteKey renders a culprit site set by stable labels (file:Func/rule#n), e.g. [gen/gen_responses.go:(*Generator).responseToIR/R1#2].
+func (e *Engine) siteKey(sites []string) string {
 	var fs []string
 	for _, s := range sites {
-		f := s
-		if i := strings.IndexByte(s, ':'); i >= 0 {
-			f = s[:i]
+		l := e.Labels[s]
+		if l == "" {
+			l = s
 		}
-		if !seen[f] {
-			seen[f] = true
-			fs = append(fs, f)
-		}
+		fs = append(fs, l)
 	}
 	sort.Strings(fs)
-	return strings.Join(fs, "+")
+	return "[" + strings.Join(fs, "+") + "]"
 }
 
 // Run is the C10 check.
@@ -834,6 +849,7 @@ func (e *Engine) Check(c *core.Ctx, filter func(Input) bool) (*core.Outcome, err
 	sort.SliceStable(fails, func(i, j int) bool { return fails[i].it.sc.ID < fails[j].it.sc.ID })
 	groupSeen := map[string]int{}
 	minimised := 0
+	var hints [][]string
 	for _, f := range fails {
 		g := f.oracle + "|" + f.it.in.In.Spec + "|" + strings.Join(f.diff, ",")
 		groupSeen[g]++
@@ -842,11 +858,14 @@ func (e *Engine) Check(c *core.Ctx, filter func(Input) bool) (*core.Outcome, err
 		}
 		sc, sites := f.it.sc, []string(nil)
 		runs := 0
-		if minimised < 8 {
+		if minimised < 40 {
 			minimised++
-			sc, sites, runs = e.minimise(f.it.sc, refBy[f.it.in.Name], f.oracle)
+			sc, sites, runs = e.minimise(f.it.sc, refBy[f.it.in.Name], f.oracle, hints)
+			if len(sites) > 0 && len(sites) <= 4 {
+				hints = append(hints, sites)
+			}
 		}
-		key := fmt.Sprintf("%s spec=%s sites=%s files=%s", shortOracle(f.oracle), filepath.Base(f.it.in.In.Spec), siteFiles(sites), strings.Join(f.diff, ","))
+		key := fmt.Sprintf("%s spec=%s sites=%s files=%s", shortOracle(f.oracle), filepath.Base(f.it.in.In.Spec), e.siteKey(sites), strings.Join(f.diff, ","))
 		out.Violations = append(out.Violations, core.Violation{
 			Key:    key,
 			Oracle: f.oracle,
